@@ -106,6 +106,11 @@ Theorem solver_driver_nonneg : forall f guess x,
   0 <= guess -> newton f driver_cfg guess = Converged x -> 0 <= x.
 Proof. exact newton_driver_nonneg. Qed.
 
+(* an Aitken extrapolation pass never ends the run (repaired in /repo 22af9e9: such a pass used to be able to) *)
+Theorem done_not_on_aitken_pass : forall f c it s x,
+  step f c it s = SDone x -> andb (c_aitken c) (Nat.eqb (it mod 3) 0) = false.
+Proof. exact done_not_on_aitken_pass. Qed.
+
 (* bracket invariant: once f(lo) f(hi) < 0 holds in some pass it holds in every later pass, the
    recorded values are the function values at the bracket ends, brackets are nested and the iterate
    stays inside *)
@@ -177,7 +182,7 @@ Proof. exact atan2_spec. Qed.
    only when the final step is an untouched under-relaxed Newton/secant step *)
 Theorem newton_step_residual_partial : forall c s fx r0 r1 g0 g1 b d x,
   d <> 0 -> c_relax c <> 0 ->
-  finish c s fx r0 r1 g0 g1 b (x2 s + - fx / d * c_relax c) = SDone x ->
+  finish c false s fx r0 r1 g0 g1 b (x2 s + - fx / d * c_relax c) = SDone x ->
   x = x2 s + - fx / d * c_relax c ->
   Rabs fx < c_atol c * Rabs d / Rabs (c_relax c).
 Proof. exact newton_step_residual_partial. Qed.
